@@ -316,6 +316,9 @@ def gen(seed, V, tier, index, bias=None):
         if rng.random() < 0.5:
             tail.insert(rng.randrange(0, len(tail) + 1), [1, E.gen_read(rng, V)])
         hist += tail
+    nm = E.name_map(seed)
+    if nm:
+        cfg["names"] = nm
     return {"prop": "C10", "seed": seed, "index": index, "cfg": cfg,
             "events": hist, "predicted_fired": fired}
 
